@@ -21,7 +21,11 @@ def main():
     if "--id" in args:
         only_id = args[args.index("--id") + 1]
         args = [a for a in args if a not in ("--id", only_id)]
-    muts = json.load(open(os.path.join(VERIF, "selftest", "mutations.json")))
+    muts = []
+    mdir = os.path.join(VERIF, "selftest", "mutations")
+    for fn in sorted(os.listdir(mdir)):
+        if fn.endswith(".json"):
+            muts.extend(json.load(open(os.path.join(mdir, fn))))
     fails = 0
     n = 0
     for m in muts:
